@@ -1,5 +1,5 @@
 """Sequences of strings of symbolic length: the prefix-join measure, in-place append, iterators,
-and the ghost summary of what an interpreted generator yields.
+the canonical division of a text into lines.
 
 prefix_join(xs, i) == xs[0] + ... + xs[i-1] is a *measure* over the list: an uninterpreted function
 `join[uid] : Int -> String` per list with the defining equations
@@ -37,24 +37,15 @@ def _zi(t):
 
 # ------------------------------------------------------------------------------ lists
 
-def _no_elem(interp, idx_term):
-    raise Unsupported('element of an empty symbolic list')
-
-
-def empty_slist(interp, base='acc'):
-    xs = SList(z3.IntVal(0), _no_elem, interp.st.fresh_name(base))
-    xs.immutable = False
-    return xs
-
-
 def copy_slist(interp, xs):
-    """list(xs): a new list object with the same elements (appends to the copy do not affect xs)."""
+    """list(xs): a new list object with the same elements (mutations of the copy do not affect xs)."""
+    from .mlist import MList
+    if isinstance(xs, MList):
+        return xs.copy(interp)
     ys = SList(xs.length, xs.elem, interp.st.fresh_name(xs.uid + '.copy'))
     ys.cache = dict(xs.cache)
-    _aux(ys)['jfun'] = _aux(xs).get('jfun') or _jfun(interp, xs)
-    _aux(ys)['unfolded'] = _aux(xs).setdefault('unfolded', set())
-    _aux(ys)['base'] = _aux(xs).get('base')
-    ys.immutable = False
+    _jfun(interp, xs)
+    ys.aux = dict(xs.aux)
     return ys
 
 
@@ -62,61 +53,35 @@ def _aux(xs):
     return xs.aux
 
 
-def append(interp, xs, v):
-    """xs.append(v), in place (every path starts from fresh objects, so Python aliasing is kept)."""
-    if isinstance(v, (SOpt, SChoice)):
-        v = interp.resolve(v)
-    n = z3.simplify(xs.length)
-    old_elem = xs.elem
-    old_cache = xs.cache
-    old_j = _jfun(interp, xs)
-
-    def old_at(interp2, idx_term):
-        key = z3.simplify(idx_term).sexpr()
-        r = old_cache.get(key)
-        if r is None:
-            r = old_elem(interp2, idx_term)
-            old_cache[key] = r
-        return r
-
-    def elem(interp2, idx_term):
-        idx = z3.simplify(idx_term)
-        if idx.eq(n):
-            return v
-        if z3.is_int_value(n) and n.as_long() == 0:
-            return v          # the only element
-        if _scalar(v):
-            if interp2.st.must_hold(idx == n):
-                return v
-            if interp2.st.must_hold(idx != n):
-                return old_at(interp2, idx)
-            o = old_at(interp2, idx)
-            if _scalar(o) and to_z3(o).sort() == to_z3(v).sort():
-                return wrap(z3.If(idx == n, to_z3(v), to_z3(o)))
-        if interp2.st.fork(wrap(idx == n)):
-            return v
-        return old_at(interp2, idx)
-
+def on_append(interp, xs, n, v):
+    """a mutable list has just received v at position n (its old length): the measure of the new contents
+    is that of the old ones below n+1 and join(n) + v at n+1"""
+    a = xs.aux
+    if not isinstance(v, (SStr, str)):
+        a.clear()
+        a['nojoin'] = True
+        return
+    if a.get('nojoin'):
+        return
+    n = z3.simplify(n)
     n1 = z3.simplify(n + 1)
-    if isinstance(v, (SStr, str)):
-        whole = z3.Concat(old_j(n), to_z3(v)) if not (z3.is_int_value(n) and n.as_long() == 0) else to_z3(v)
-
-        def jfun(t):
-            t = z3.simplify(_zi(t))
-            if t.eq(n1):
-                return whole
-            if z3.is_int_value(t) and z3.is_int_value(n1):
-                return whole if t.as_long() == n1.as_long() else old_j(t)
-            return z3.If(t == n1, whole, old_j(t))
-
-        _aux(xs)['jfun'] = jfun
+    if z3.is_int_value(n) and n.as_long() == 0:
+        old_j = lambda t: z3.StringVal('')
+        whole = to_z3(v)
     else:
-        _aux(xs)['jfun'] = None
-        _aux(xs)['nojoin'] = True
-    xs.elem = elem
-    xs.cache = {}
-    xs.length = n1
-    return None
+        old_j = _jfun(interp, xs)
+        whole = z3.Concat(old_j(n), to_z3(v))
+
+    def jfun(t):
+        t = z3.simplify(_zi(t))
+        if t.eq(n1):
+            return whole
+        if z3.is_int_value(t) and z3.is_int_value(n1):
+            return whole if t.as_long() == n1.as_long() else old_j(t)
+        return z3.If(t == n1, whole, old_j(t))
+
+    a['jfun'] = jfun
+    a['base'] = True
 
 
 # ------------------------------------------------------------------------------ prefix join
@@ -128,10 +93,10 @@ def _jfun(interp, xs):
         if a.get('nojoin'):
             raise _pyraise(TypeError('sequence item: expected str instance'))
         n = z3.simplify(xs.length)
-        if z3.is_int_value(n) and n.as_long() == 0:
+        if z3.is_int_value(n) and n.as_long() == 0 and xs.immutable and type(xs) is SList:
             j = lambda t: z3.StringVal('')
         else:
-            f = z3.Function('join[%s]' % xs.uid, z3.IntSort(), z3.StringSort())
+            f = z3.Function(interp.st.fresh_name('join[%s]' % xs.uid), z3.IntSort(), z3.StringSort())
             interp.st._add(f(z3.IntVal(0)) == z3.StringVal(''))       # definitional: outside any merge scope
             j = lambda t, f=f: f(_zi(t))
             a['base'] = True
@@ -145,16 +110,26 @@ def _unfold(interp, xs, t):
     if not a.get('base'):
         return            # accumulators: the measure is defined by the appends themselves
     t = z3.simplify(_zi(t))
-    key = t.sexpr()
+    st = interp.st
+    n = xs.length
+    from .gens import YSeq
+    if isinstance(xs, YSeq) and xs.shape is None:
+        return            # nothing yielded yet on this path
+    key = t.sexpr() if xs.immutable else '%s|%s' % (t.sexpr(), z3.simplify(n).sexpr())
     done = a.setdefault('unfolded', set())
     if key in done:
         return
     done.add(key)
-    st = interp.st
-    n = xs.length
     if z3.is_int_value(t) and t.as_long() < 0:
         return
-    guard = z3.And(t >= 0, t < n)
+    if isinstance(xs, YSeq):
+        # the items are one fixed (ghost) function of the position; only the length changes: the defining
+        # equation holds at every position >= 0, whatever the current length
+        if xs.shape is None:
+            return
+        guard = t >= 0
+    else:
+        guard = z3.And(t >= 0, t < n)
     if st.must_hold(z3.Not(guard)):
         return
     j = a['jfun']
@@ -233,23 +208,6 @@ def rest_of_iter(interp, it):
 
 # ------------------------------------------------------------------------------ spec functions (models)
 
-def m_yielded(interp, args, kwargs):
-    """yielded(g): everything a generator / iterator yields from here on, as a list.
-    An interpreted generator is run to completion in *collect* mode: every `yield v` appends v to the
-    ghost list `_yielded` of its frame (visible to loop invariants, havocked through `modifies`)."""
-    from .interp import GenObj
-    (g,) = args
-    if isinstance(g, (SOpt, SChoice)):
-        g = interp.resolve(g)
-    if isinstance(g, GenObj):
-        return drain(interp, g)
-    if isinstance(g, models.SIter):
-        return rest_of_iter(interp, g)
-    if isinstance(g, SList):
-        return g
-    return list(interp.iterate(g))
-
-
 def m_peek(interp, args, kwargs):
     (it,) = args
     if isinstance(it, (SOpt, SChoice)):
@@ -263,23 +221,6 @@ def m_peek(interp, args, kwargs):
     if isinstance(it, (SList, list, tuple)):
         return it
     raise Unsupported('peek of %r' % (it,))
-
-
-def drain(interp, g):
-    from .interp import PyRaise
-    if g.collect and g.state == 'done' and g.collected is not None:
-        return g.collected
-    if g.state != 'new':
-        raise Unsupported('yielded() of a generator that has already been started')
-    g.collect = True
-    try:
-        g.send(None)
-    except PyRaise as e:
-        if not isinstance(e.exc, StopIteration):
-            raise
-    else:
-        raise Unsupported('generator in collect mode suspended')
-    return g.collected
 
 
 def m_is_find(interp, args, kwargs):
